@@ -46,6 +46,9 @@ ARENAS = {
     "ep_then_castle_w": ("4k3/p7/8/8/8/8/8/4K2R b K - 0 1", 6, 7),
     "ep_then_castle_b": ("r3k3/8/8/8/8/8/7P/4K3 w q - 0 1", 6, 7),
     "ep_then_castle_q": ("4k3/7p/8/8/8/8/8/R3K3 b Q - 0 1", 6, 7),
+    # promotions (with and without capture) while the clock is about to reach 100
+    "promo_clock": ("1n2k3/P7/8/8/8/8/8/4K3 w - - 97 60", 4, 5),
+    "promo_clock_b": ("4k3/8/8/8/8/8/p7/1N2K3 b - - 96 60", 5, 6),
 }
 
 
